@@ -2,7 +2,7 @@
 For every multibinary entry point, every path through its resolver: the ISA classes of all
 instructions reachable from the selected symbol are implied by the feature/OS facts the
 path established."""
-import collections
+import collections, re
 from common import Report, AnalysisBroken
 import srcset, asmdb, facts, isa
 from program import Program
@@ -105,6 +105,7 @@ def analyse_config(rep, config, class_counts):
                            entry=ep['name'], selected=sym, token=t, paths=len(lst))
             if not has_nofact:
                 R_fb.notes.append('%s: no path without facts' % ep['name'])
+    family_names(rep, config, selections)
     agree_tableformat(rep, config, selections, reqcache, prog)
     return npaths, prog
 
@@ -133,6 +134,38 @@ def feasible(p):
         return None
     F = closure(set(p.facts))
     return not any(cl <= F for cl in c)
+
+
+# which implementations belong to which entry point is fixed by the library's naming: <entry>_<variant>; the entry points whose implementations are named differently are listed
+FAMILY = {
+    'gen_icf_map_lh1': r'^gen_icf_map_l?h1_(base|\d+)$',
+    'isal_adler32': r'^adler32_\w+$',
+    'isal_deflate_hash_lvl0': r'^isal_deflate_hash_(base|crc_\d+)$', 'isal_deflate_hash_lvl1': r'^isal_deflate_hash_(base|crc_\d+)$', 'isal_deflate_hash_lvl2': r'^isal_deflate_hash_(base|crc_\d+)$',
+    'isal_deflate_hash_lvl3': r'^isal_deflate_hash_(base|mad_base|mad_\d+)$',
+    'isal_deflate_icf_body_lvl1': r'^isal_deflate_icf_body_hash_hist_(base|\d+)$', 'isal_deflate_icf_body_lvl2': r'^isal_deflate_icf_body_hash_hist_(base|\d+)$',
+    'isal_deflate_icf_body_lvl3': r'^icf_body_(lazyhash1|hash1)_fillgreedy_(greedy|lazy)$',
+    'isal_deflate_icf_finish_lvl1': r'^isal_deflate_icf_finish_hash_hist_(base|\d+)$', 'isal_deflate_icf_finish_lvl2': r'^isal_deflate_icf_finish_hash_hist_(base|\d+)$',
+    'isal_deflate_icf_finish_lvl3': r'^isal_deflate_icf_finish_hash_map_(base|\d+)$',
+    'isal_zero_detect': r'^mem_zero_detect_\w+$',
+}
+
+
+def family_names(rep, config, selections):
+    R = rep.rule('D-FAMILY[%s]' % config, 'every symbol a resolver can select for entry point E is an implementation of E: its name is E_<variant> (or matches the pattern listed for the 13 entry points whose '
+                 'implementations are named differently): no CPU configuration gets a sibling function - another polynomial, the reflected instead of the normal CRC, the update instead of the encode - behind '
+                 'E\'s name', floor=30, unit='entry points')
+    for e, lst in sorted(selections.items()):
+        R.instance()
+        pat = FAMILY.get(e, '^' + re.escape(e) + r'_\w+$')
+        bad = {}
+        for p, sym, where in lst:
+            if not re.match(pat, sym):
+                bad.setdefault(sym, where)
+        for sym, where in sorted(bad.items()):
+            R.fail(where, 'entry point %s can resolve to %s, which is not one of its implementations (%s): on that CPU/OS configuration the caller gets the result of another function' % (e, sym, pat),
+                   key='D-FAMILY|%s|%s' % (e, sym))
+        if not bad:
+            R.ok(1, sample='%s -> %s' % (e, sorted({s for _, s, _ in lst})) if e.startswith('crc64_rocksoft') else None)
 
 
 def agree_tableformat(rep, config, selections, reqcache, prog):
